@@ -38,7 +38,8 @@ func faultCfg(errWrites, api bool) Cfg {
 	return Cfg{Mods: []string{"auth", "lock", "confirm", "recover", "register", "remember", "otp", "oauth2", "logout"},
 		Expire: true, Totp: true, Sms: true, Recovery: true, EmailAuth: false, LockAfter: 3, LockWindow: 300, LockDuration: 3600,
 		ExpireAfter: 600, RecoverDur: 3600, Mount: "/auth", API: api, ErrWrites: errWrites, LogoutMethod: "POST", MailMethod: mm,
-		RecoverLogin: true, Whitelist: []string{}, Unauthed: "redirect", Providers: []string{"google"}, Preserve: []string{}, OneTime: true}
+		RecoverLogin: true, Whitelist: []string{}, Unauthed: "redirect", Providers: []string{"google"}, Preserve: []string{}, OneTime: true,
+		Localizer: map[bool]string{true: "empty", false: ""}[api], ModList: api}
 }
 
 func seeds() []SymStep {
@@ -137,10 +138,23 @@ func flows() []flow {
 		}, func(g *flowGen) SymStep { return app("b1") }, none},
 		{"app-session", func(g *flowGen) []SymStep { return []SymStep{g.login("b1", "u1", pw("u1"), false)} },
 			func(g *flowGen) SymStep { return app("b1") }, none},
+		// a session that outlived its account's standing meets the lock / confirm middlewares while the backend fails:
+		// whatever fails, the application page is not served to it
+		{"app-locked", func(g *flowGen) []SymStep {
+			return []SymStep{g.login("b1", "u1", pw("u1"), false), {Kind: "lock", U: "u1"}}
+		}, func(g *flowGen) SymStep { return app("b1") },
+			func(g *flowGen) []SymStep { return []SymStep{app("b1")} }},
+		{"app-unconfirmed", func(g *flowGen) []SymStep {
+			return []SymStep{g.login("b1", "u1", pw("u1"), false), {Kind: "startconfirm", U: "u1"}}
+		}, func(g *flowGen) SymStep { return app("b1") },
+			func(g *flowGen) []SymStep { return []SymStep{app("b1")} }},
 		{"totp-validate", func(g *flowGen) []SymStep { return []SymStep{g.login("b1", "u2", pw("u2"), false)} },
 			func(g *flowGen) SymStep {
 				return g.req("b1", "POST", "TotpValidate", []KV{{"code", Desc{K: "totp", U: "u2"}}})
-			}, none},
+			}, func(g *flowGen) []SymStep { // the same code again at once from another browser
+				return []SymStep{g.login("b2", "u2", pw("u2"), false),
+					g.req("b2", "POST", "TotpValidate", []KV{{"code", Desc{K: "totp", U: "u2"}}})}
+			}},
 		{"totp-validate-rc", func(g *flowGen) []SymStep { return []SymStep{g.login("b1", "u2", pw("u2"), false)} },
 			func(g *flowGen) SymStep {
 				return g.req("b1", "POST", "TotpValidate", []KV{{"recovery_code", Desc{K: "rc", U: "u2"}}})
@@ -241,7 +255,7 @@ func init() {
 						if *only != "" && !strings.HasPrefix(f.name, *only) {
 							continue
 						}
-						if lockless && !(strings.HasSuffix(f.name, "-rc") || f.name == "otp-login" || f.name == "remember") {
+						if lockless && !(strings.HasSuffix(f.name, "-rc") || f.name == "otp-login" || f.name == "remember" || f.name == "totp-validate") {
 							continue
 						}
 						base := append(append([]SymStep{}, seeds()...), f.prefix(g)...)
